@@ -177,7 +177,7 @@ def _index_kind(f, expr, seen=None, depth=0):
         if isinstance(e, ast.Starred):
             return k(e.value)
         if isinstance(e, ast.Slice):
-            return 'static' if all(x is None or k(x) == 'static' for x in (e.lower, e.upper, e.step)) else 'external'
+            return 'static'         # a slice never addresses an element twice, whatever its bounds
         if isinstance(e, ast.BinOp):
             return 'static' if k(e.left) == 'static' and k(e.right) == 'static' else 'external'
         if isinstance(e, ast.UnaryOp):
